@@ -452,11 +452,22 @@ OsshKeyCases ==
 \* SEC1 / RFC 5915, also inside PKCS#8; parameters are optional inside PKCS#8
 EcPrivCases ==
     {k \in [scheme : {"ecpriv"}, kt : {"ec256", "ec384", "ec521"},
-            container : {"sec1", "pkcs8"}, pub : {"present", "absent"},
+            container : {"sec1", "pkcs8"}, pub : {"present", "compressed", "absent"},
             params : {"present", "absent"}] :
         k.container = "sec1" => k.params = "present"}
+\* EC PUBLIC keys whose point is written compressed (SubjectPublicKeyInfo,
+\* OpenSSH blob, inside a certificate): RFC 5656 3.1 - may be refused, but
+\* if accepted the key is the same key: same (uncompressed) public_data
+EcPubCases ==
+    [scheme : {"ecpub"}, kt : {"ec256", "ec384", "ec521"},
+     container : {"spki", "openssh", "cert"}, point : {"uncompressed", "compressed"}]
+\* PKCS#8 envelope shapes (RFC 5208 / RFC 5958): version 0 or 1, optional
+\* [0] attributes, optional [1] publicKey, clear or PBES2-encrypted
+P8EnvCases ==
+    [scheme : {"p8env"}, kt : PrivKts,
+     shape : {"v0", "v0attr", "v1pub", "v1attrpub"}, enc : {"clear", "pbes2"}]
 EncCases == Pbes2Base \cup Pbes2Large \cup Pbes2Ber \cup Pbes1Cases \cup DekCases
-              \cup OsshKeyCases \cup EcPrivCases
+              \cup OsshKeyCases \cup EcPrivCases \cup EcPubCases \cup P8EnvCases
 
 EncClass(k) ==
     CASE k.scheme = "pbes2" ->
@@ -475,6 +486,8 @@ EncClass(k) ==
             ELSE IF k.pad \in {"long", "misaligned"} THEN "tolerated"
             ELSE "legal"
       [] k.scheme = "ecpriv" -> "legal"     \* the public point is a function of d
+      [] k.scheme = "ecpub" -> IF k.point = "compressed" THEN "tolerated" ELSE "legal"
+      [] k.scheme = "p8env" -> "legal"
 
 \* PBKDF2: the hash the key was derived with / the hash the decoder uses
 TrueHash(k) == IF k.prf = "absent" THEN "sha1" ELSE k.prf
@@ -496,6 +509,9 @@ EncOutcome(k) ==
       [] k.scheme = "openssh" ->
             IF k.check = "differ" \/ k.nkeys # 1 \/ k.pad = "zeros" THEN "KeyImportError" ELSE "ok"
       [] k.scheme = "ecpriv" -> "ok"
+      [] k.scheme = "ecpub" -> "ok"
+      [] k.scheme = "p8env" -> IF Variant = "StrictEnvelope" /\ k.shape # "v0"
+                               THEN "KeyImportError" ELSE "ok"
 
 \* every legal encoding imports; nothing illegal by structure is imported
 EncSound ==
